@@ -217,6 +217,10 @@ bool RadioTapParser::advance_namespace() {
 }
 
 RadioTap::PresentFlags RadioTapParser::namespace_flags() const {
+    // If we have no buffer to parse, then there are no flags
+    if (start_ == 0) {
+        return static_cast<RadioTap::PresentFlags>(0);
+    }
     uint32_t output;
     memcpy(&output, get_flags_ptr(), sizeof(output));
     return static_cast<RadioTap::PresentFlags>(Endian::le_to_host(output));
